@@ -48,6 +48,7 @@ Deliver(cls, canon) ==
     /\ ~dead
     /\ k < Len(fr)
     /\ fr[k + 1].end <= got                    \* nothing is fabricated from bytes not yet received
+    /\ fr[k + 1].end - EndOf(k) <= maxb        \* an oversized frame is never accepted (C17)
     /\ cls = fr[k + 1].cls /\ canon = fr[k + 1].canon
     /\ k' = k + 1
     /\ UNCHANGED <<fr, total, maxb, got, closed, eofSeen, rdErr, dead>>
